@@ -182,6 +182,11 @@ impl Wire {
 }
 
 pub fn check(c: &Case) -> CheckResult {
+    let rt = tokio::runtime::Builder::new_current_thread().enable_all().build().map_err(|e| Failure::new("harness", e.to_string()))?;
+    rt.block_on(run_case(c))
+}
+
+async fn run_case(c: &Case) -> CheckResult {
     if c.nbs.is_empty() || (c.nbs.len() == 2 && c.nbs[0].who % 4 == c.nbs[1].who % 4) {
         return Ok(CaseInfo::trivial());
     }
@@ -191,7 +196,7 @@ pub fn check(c: &Case) -> CheckResult {
     }
     let mut nbs: Vec<(Neighbor, Wire, u8)> = Vec::new();
     for nb in &c.nbs {
-        let n = catch(|| Neighbor::establish(&rig.tm, params(nb, nb.policy))).map_err(|p| p.into_failure("on_established"))?;
+        let n = Neighbor::establish(&rig.tm, params(nb, nb.policy)).await;
         nbs.push((n, Wire::new(nb.send_max % 3 > 0), nb.policy));
     }
     let mut flush_with_backlog = false;
@@ -217,7 +222,7 @@ pub fn check(c: &Case) -> CheckResult {
             }
             Op::Deliver { nb, n } => {
                 let i = *nb as usize % nbs.len();
-                let d = catch(|| nbs[i].0.deliver(&rig.tm, *n as usize)).map_err(|p| p.into_failure("process_nlri_change"))?;
+                let d = nbs[i].0.deliver(*n as usize).await;
                 if d < *n as usize {
                     undelivered[i] = 0;
                 }
@@ -238,11 +243,8 @@ pub fn check(c: &Case) -> CheckResult {
                 let pols = export_policies();
                 nbs[i].0.set_policy(pols[*policy as usize % pols.len()].clone());
                 nbs[i].2 = *policy;
-                catch(|| {
-                    nbs[i].0.route_refresh(&rig.tm, Family::IPV4);
-                    nbs[i].0.route_refresh(&rig.tm, Family::IPV6);
-                })
-                .map_err(|p| p.into_failure("do_route_refresh"))?;
+                nbs[i].0.route_refresh(Family::IPV4).await;
+                nbs[i].0.route_refresh(Family::IPV6).await;
             }
         }
     }
@@ -250,10 +252,7 @@ pub fn check(c: &Case) -> CheckResult {
     let mut info = CaseInfo::trivial();
     let mut withdrawals = 0;
     for (i, (n, w, _)) in nbs.iter_mut().enumerate() {
-        catch(|| {
-            while n.deliver(&rig.tm, 64) > 0 {}
-        })
-        .map_err(|p| p.into_failure("process_nlri_change"))?;
+        while n.deliver(64).await > 0 {}
         let msgs = catch(|| n.flush()).map_err(|p| p.into_failure("drain_messages"))?;
         w.send(msgs)?;
         withdrawals += w.withdrawals;
@@ -265,7 +264,7 @@ pub fn check(c: &Case) -> CheckResult {
             continue;
         }
         n.close(&rig.tm);
-        let mut fresh = catch(|| Neighbor::establish(&rig.tm, params(spec, *policy))).map_err(|p| p.into_failure("on_established"))?;
+        let mut fresh = Neighbor::establish(&rig.tm, params(spec, *policy)).await;
         let mut fw = Wire::new(spec.send_max % 3 > 0);
         let msgs = catch(|| fresh.flush()).map_err(|p| p.into_failure("drain_messages"))?;
         fw.send(msgs)?;
